@@ -8,7 +8,9 @@ used = []
 for f in sorted(glob.glob("/verif/seeded/%s-m*/meta.json" % ID)):
     m = json.load(open(f))
     used.append("- " + re.sub(r"\s+", " ", str(m.get("summary", "")))[:260])
+nums = [int(re.search(r"-m(\d+)/", f).group(1)) for f in glob.glob("/verif/seeded/%s-m*/meta.json" % ID)]
+nxt = max(nums + [4]) + 1
 extra = ("\n\nThis is a SECOND round. The following changes were already produced by an earlier author — do NOT repeat them or close variants; "
          "look for breaks in other functions, other sentences of the statement, other input classes or interleavings:\n" + "\n".join(used) + "\n"
-         "Number your changes m5, m6, ... (directories out/m5 etc.).\n")
+         "Number your changes m%d, m%d, ... (directories out/m%d etc.).\n" % (nxt, nxt + 1, nxt))
 print(base + extra)
